@@ -60,7 +60,10 @@ def replay(ctx, prop, rp, built):
     if not ops:
         print("replay file names a broken obligation, no operations to re-run:", rp.get("broken_obligations"))
         return 0
-    impl, model = ctx.pair(ops)
+    if hasattr(ctx, "replay_runner"):
+        impl, model = ctx.replay_runner(ops)
+    else:
+        impl, model = ctx.pair(ops)
     bad = 0
     for it, a, b in zip(items, impl, model):
         exp = it.get("expected")
@@ -116,6 +119,8 @@ def main(argv):
         ctx = Ctx(prop, tier, seed, schema)
         ctx.broken = broken
         if a.replay:
+            if hasattr(mod, "prepare_replay"):
+                ctx.replay_runner = mod.prepare_replay(ctx)
             return replay(ctx, prop, json.load(open(a.replay)), ok_d and ok_h)
         if schema is not None and ok_h and ok_r and (ok_d or getattr(mod, "IMPL_ONLY_OK", False)):
             ctx.model_ok = ok_d
